@@ -90,15 +90,10 @@ theorem checkAttributes_notOther (env : Env) (d : ClassDef) (n : Node) (ps : Lis
       · cases hp
       · cases hp; exact errAt_notOther _ _
   · obtain ⟨x, _, hx⟩ := List.exists_of_findSome?_eq_some h
-    split at hx
-    · split at hx
-      · cases hx; exact errAt_notOther _ _
-      · split at hx
-        · split at hx
-          · cases hx; exact errAt_notOther _ _
-          · cases hx
-        · cases hx
-    · cases hx; exact errAt_notOther _ _
+    repeat' split at hx
+    all_goals first
+      | (cases hx; exact errAt_notOther _ _)
+      | cases hx
 
 def Tame (e : LoadErr) : Prop := e = .fuel ∨ NotOther e
 
@@ -355,7 +350,7 @@ theorem C08_load_no_other (env : Env) (tbl : List Entry) (ht : HooksTame env) (f
 
 def demoEnv : Env :=
   { registered := [{ name := "A", bases := [], ancestors := ["object"], kind := .plain, abstract := false,
-                     params := [⟨"x", .int, true, true⟩], argNames := ["x"],
+                     params := [⟨"x", .int, true, true⟩], argNames := ["x"], extraTy := none,
                      recognize := some [.requireMapping, .requireAttribute "x" (some .int)],
                      savorize := some [.raiseOther], initRaises := fun _ => true }],
     ext := ⟨fun _ => none, fun _ => none, fun _ => none⟩ }
